@@ -29,22 +29,25 @@ for m in ['x/ecocredit', 'x/data', 'x/intertx', 'types', 'api']:
     if demo.startswith(m + '/'):
         demomod = m
 rel = './' + os.path.relpath(demodir, demomod)
+demo_src = f'{wt}/deliver/' + os.path.basename(demo)
+if not os.path.exists(demo_src):
+    cands = [f for f in os.listdir(f'{wt}/deliver') if f.endswith('_test.go')]
+    demo_src = f'{wt}/deliver/' + cands[0]
+# (1) module tests with change, demo absent
+if os.path.exists(f'{wt}/{demo}'):
+    os.remove(f'{wt}/{demo}')
+ok = True; tails = {}
+for m in sorted(mods):
+    rc, out = sh('go build ./... && go test -vet=off -count=1 ./...', f'{wt}/{m}')
+    tails[m] = out[-400:]
+    ok = ok and rc == 0
+res['module_tests_pass_with_change'] = ok
+res['module_tests_tail'] = tails
 # (2) demo with change
+shutil.copy(demo_src, f'{wt}/{demo}')
 rc, out = sh(f'go test -vet=off -count=1 -run "Seeded|seeded|Demo|demo" {rel}', f'{wt}/{demomod}')
 res['demo_with_change_fails'] = rc != 0 and 'FAIL' in out
 res['demo_with_change_tail'] = out[-600:]
-# (1) module tests with change (excluding the demo test file)
-shutil.move(f'{wt}/{demo}', '/tmp/mut/_demo_hold.go')
-try:
-    ok = True; tails = {}
-    for m in sorted(mods):
-        rc, out = sh('go build ./... && go test -vet=off -count=1 ./...', f'{wt}/{m}')
-        tails[m] = out[-400:]
-        ok = ok and rc == 0
-    res['module_tests_pass_with_change'] = ok
-    res['module_tests_tail'] = tails
-finally:
-    shutil.move('/tmp/mut/_demo_hold.go', f'{wt}/{demo}')
 # (3) demo without change
 rc, out = sh('git apply -R deliver/patch.diff', wt)
 if rc != 0:
